@@ -7,6 +7,8 @@ import TongoModel.Address
 import TongoProofs.Lemmas.Crc16Lin
 import TongoProofs.Lemmas.Base64Bits
 import TongoProofs.Lemmas.AddrRoundtrip
+import TongoProofs.Lemmas.AddrRoot
+import TongoProofs.Lemmas.AddrTlbSpec
 /-! Property C17 — account addresses and shard ids keep their meaning across all forms.
 Property theorems only (helper lemmas live in TongoProofs/Lemmas).
 
@@ -184,6 +186,15 @@ theorem parse_dispatch :
       (∃ e, fromRaw (toHumanAlpha url a b t) = .err e) ∧ (∀ x, fromRaw (toHumanAlpha url a b t) ≠ .ok x) ∧
       parseAccountID (toHumanAlpha url a b t) = .ok a) := Address.parse_dispatch
 
+/-- root package `tongo.ParseAddress` / `MustParseAddress`: the flags are part of what the friendly form means — for int8
+workchains, all four flag combinations and both alphabets the SAME account id and the SAME bounce flag come back (the
+testnet flag has no field in `ton.Address`); the raw form parses as bounceable. (The unfixed code computed
+`b[0]&0x11 == 0x11`, true for both tags; fixed in the repository, see known_findings.) -/
+theorem parse_address_flags (url : Bool) (a : AccountID) (b t : Bool) (h : a.WF)
+    (hw : a.wc = (a.wc.setWidth 8).signExtend 32) :
+    parseAddress (toHumanAlpha url a b t) = .ok (a, b) ∧ parseAddress (toRaw a) = .ok (a, true) :=
+  ⟨Address.parseAddress_human url a b t h hw, Address.parseAddress_raw a h⟩
+
 /-- JSON: the quoted raw form parses back -/
 theorem json_roundtrip (a : AccountID) (h : a.WF) : fromJSON (toJSON a) = .ok a := Address.json_roundtrip a h
 
@@ -203,6 +214,18 @@ theorem tlb_workchain_truncated (a : AccountID) :
 theorem tlb_bits_roundtrip (a : AccountID) (h : a.WF) (rest : List Bool) :
     ∃ bs, tlbBits (toMsgAddress a) = some bs ∧ bs.length = 267 ∧ parseTlbBits (bs ++ rest) = .ok (toMsgAddress a) :=
   Address.tlb_bits_roundtrip a h rest
+
+/-- TL-B, all four constructors (addr_none, addr_extern, addr_std with anycast, addr_var): the bit layout of this model IS
+the schema-level specification of the TL-B slice (`Tongo.Tlb.Spec.specMsgAddress`, the one C03/C04 are stated about), so
+the two models cannot drift. `WF`: anycast depth 1..30 with a prefix below 2^depth, 32 address bytes, at most 511
+extern/var bits, `addr_len` = number of address bits. -/
+theorem tlb_bits_eq_tlb_spec (m : MsgAddress) (h : m.WF) :
+    Tlb.Spec.specMsgAddress (toVal m) = (tlbBits m).map (fun bs => (bs, [])) := Address.tlbBits_eq_spec m h
+
+/-- TL-B, all four constructors: serialise then parse gives the same MsgAddress back, whatever follows in the cell
+(`WF'` = `WF` with anycast depth up to 31, which the Go reader accepts) -/
+theorem tlb_bits_roundtrip_all (m : MsgAddress) (h : m.WF') (rest : List Bool) :
+    ∃ bs, tlbBits m = some bs ∧ parseTlbBits (bs ++ rest) = .ok m := Address.tlb_bits_roundtrip_all m h rest
 
 /-- ADNL: the 55-character lower-case base32 form of every 32-byte address parses back (with or without `.adnl`) -/
 theorem adnl_base32_roundtrip (addr : List Byte) (h : addr.length = 32) :
